@@ -56,6 +56,11 @@ def curated_lists():
     L.append([szt(), P(VARYING, TTRKC, 8, 8), P(PLAIN, TUINT, 4, 4)])
     L.append([P(FIXED, TTRKC, 12, 4), P(PLAIN, TTRKC, 4, 4)])
     L.append([P(PLAIN, TTRKC, 4, 4), P(PLAIN, TBLOB, 4, 4), P(FIXED, TTRK, 8, 8)])
+    # only the copy / only the move constructor non-trivial (trivially destructible)
+    L.append([P(PLAIN, TUINT, 4, 4), P(FIXED, TTRKCC, 4, 4)])
+    L.append([szt(), P(VARYING, TTRKCC, 4, 4), P(PLAIN, TTRKMC, 8, 8)])
+    L.append([P(FIXED, TTRKMC, 3), P(PLAIN, TU8, 1)])
+    L.append([szt(), P(VARYING, TTRKMC, 8, 8)])
     # trivial for one of the two assignment operators only (copy / move run tables differ)
     L.append([P(PLAIN, TUINT, 4, 4), P(FIXED, TTRKMA, 4, 4), P(PLAIN, TTRKCA, 2)])
     L.append([szt(), P(VARYING, TBLOB, 3), P(PLAIN, TTRKMA, 8, 8), P(PLAIN, TTRKCA, 4, 4)])
@@ -112,7 +117,7 @@ def random_param(rng, kind, count_field=False):
         elif r < 0.78:
             ty, size = TFLT, rng.choice([4, 8])
         else:
-            ty, size = rng.choice([TTRK, TTRK, TTRKC]), rng.choice([1, 3, 4, 8, 12, 32])
+            ty, size = rng.choice([TTRK, TTRK, TTRK, TTRKC, TTRKC, TTRKCC, TTRKMC]), rng.choice([1, 3, 4, 8, 12, 32])
     r = rng.random()
     if r < 0.4:
         al = 1
@@ -143,7 +148,7 @@ def random_list(rng):
     # a non-trivial type in 1/3 of the lists only (they are slower and noisier)
     if rng.random() < 0.6:
         for p in L:
-            if p.ty in (TTRK, TTRKC):
+            if p.ty in (TTRK, TTRKC, TTRKCC, TTRKMC):
                 p.ty = TBLOB
     return L if wf(L) else random_list(rng)
 
@@ -857,7 +862,7 @@ def can_assign(L):
 
 
 def can_swap(L):
-    return all(p.kind != VARYING or p.ty not in (TTRK, TTRKC, TBYTE, TTRKMA) for p in L)
+    return all(p.kind != VARYING or p.ty not in (TTRK, TTRKC, TBYTE, TTRKMA, TTRKMC) for p in L)
 
 
 def gen_proxy(L, K, rng):
@@ -1009,7 +1014,7 @@ def gen_elem(L, K, rng, moved_targets=False):
         return g.finish(), g.stats
     E = [None] * 4          # dict(t, aid, null)
     shape = lambda t: [len(f) for f in t]
-    scrib = lambda t, ctor=False: [[[238] * p.size for _ in f] if p.ty in ((TTRK, TTRKC) if ctor else (TTRK, TTRKMA)) else f for f, p in zip(t, L)]
+    scrib = lambda t, ctor=False: [[[238] * p.size for _ in f] if p.ty in ((TTRK, TTRKC, TTRKMC) if ctor else (TTRK, TTRKMA)) else f for f, p in zip(t, L)]
     aeq = lambda a, b: bool(K[3]) or a == b
     fixed_path = not has_varying(L) and (not K[0] or K[3])
 
